@@ -108,7 +108,7 @@ def main():
         kani_thread = threading.Thread(target=run_kani, args=(spec['kani'], kani_res, log))
         kani_thread.start()
 
-    deadline = spec.get('deadline', {}).get(a.tier, 170 if a.tier == 'quick' else 2400)
+    deadline = spec.get('deadline', {}).get(a.tier, 900 if a.tier == 'quick' else 3600)   # generous: on a loaded machine a quick run may take several times its usual 10-100 s
     init_args = (paths['mir'], paths['repo'], paths['src'], paths['native_dev'], PROP_MODULES_PRESENT(), [k['role'] for k in known], paths if spec.get('cli') else None)
     states, funcs_hit, models_hit = explore.run_jobs(jobs, init_args, nworkers=a.workers, deadline_s=deadline,
                                                      validate_every=spec.get('validate_every', {}).get(a.tier, 20), seed=seed, log=log)
